@@ -1,7 +1,8 @@
 //! The dynamic builder: grammar AST -> boxed chumsky parser, following the table in /verif/FORMAT.md.
 //!
 //! Every `G` node becomes a `P<'a, I, E>` = `Boxed<'a, 'a, I, Val, extra::Full<E, HState, Val>>`.
-//! The builder is generic over the input kind (`HInput`) and the error type (`HErr`).
+//! The builder is generic over the input kind (`HInput`) and the error type (`HErr`); it is instantiated in the
+//! worker crates only (one per input kind and error type).
 //!
 //! Iterable grammars (`IT`) cannot be boxed (`IterParser` is not object safe), so they are composed
 //! statically: a base (`IRep | ISep | IOrNot | IRepCfg`), an adaptor stack of depth 0..=2
@@ -9,16 +10,19 @@
 //! (`both2 -> both1 -> iter0`, `iter2 -> iter1 -> iter0`, `finish`). See the section "iterables" below for
 //! what chumsky's API admits.
 
+use std::cell::RefCell;
 use std::marker::PhantomData;
 
-use chumsky::input::{Emitter, InputRef, MapExtra};
+use chumsky::input::{Emitter, InputRef, MapExtra, SliceInput, ValueInput};
+use chumsky::pratt::{self, Operator};
 use chumsky::prelude::*;
 use chumsky::primitive::select;
+use chumsky::recursive::{Direct, Indirect};
 
-use crate::ast::{CKind, G, IT};
+use crate::ast::{CKind, PForm, POp, G, IT};
 use crate::errs::HErr;
-use crate::input::{HInput, HState};
-use crate::val::{ap1, apmw, holds, val_count, val_toks, Fn1, Mw, Pos, Val};
+use crate::input::{HInput, HSpan, HState};
+use crate::val::{ap1, apmw, holds, val_count, Fn1, HTok, Mw, Pos, Pred, Val};
 
 /// The extra type used everywhere: error `E`, state `HState`, context `Val`.
 pub type Ex<E> = extra::Full<E, HState, Val>;
@@ -26,19 +30,29 @@ pub type Ex<E> = extra::Full<E, HState, Val>;
 pub type P<'a, I, E> = Boxed<'a, 'a, I, Val, Ex<E>>;
 /// A boxed parser with (native) output `()`.
 pub type PU<'a, I, E> = Boxed<'a, 'a, I, (), Ex<E>>;
+/// A boxed pratt operator.
+pub type POpBox<'a, I, E> = pratt::Boxed<'a, 'a, I, Val, Ex<E>>;
 
 /// The grammar cannot be built for this input kind (result `UNSUPPORTED`); the text says why.
 #[derive(Debug)]
 pub struct Unsupported(pub &'static str);
 pub type Res<T> = Result<T, Unsupported>;
 
-fn unsupported<T>(why: &'static str) -> Res<T> {
+pub fn unsupported<T>(why: &'static str) -> Res<T> {
     Err(Unsupported(why))
 }
 
+/// A handle of an enclosing `Rec` (`recursive(..)`) or `RecDecl` (`Recursive::declare()`).
+enum Handle<'a, I: HInput<'a>, E: HErr<'a, I>> {
+    Direct(Recursive<Direct<'a, 'a, I, Val, Ex<E>>>),
+    Indirect(Recursive<Indirect<'a, 'a, I, Val, Ex<E>>>),
+}
+
 pub struct Builder<'a, I: HInput<'a>, E: HErr<'a, I>> {
-    /// The caller's input: needed to convert raw offsets to token indices and to locate slices.
-    input: I,
+    /// The caller's buffer as far as needed to convert raw offsets to token indices and to locate slices.
+    cv: I::Conv,
+    /// Handles of the enclosing `Rec`/`RecDecl` nodes, innermost last (`(Var k)` counts from the end).
+    env: RefCell<Vec<Handle<'a, I, E>>>,
     _p: PhantomData<fn() -> (&'a (), E)>,
 }
 
@@ -61,20 +75,21 @@ where
     p.boxed()
 }
 
-fn span_val<'a, I: HInput<'a>>(inp: &I, s: SimpleSpan<usize>) -> Val {
-    Val::Span(inp.pos(s.start), inp.pos(s.end))
+fn span_val<'a, I: HInput<'a>>(cv: &I::Conv, s: I::Span) -> Val {
+    let (st, en) = s.raw();
+    Val::Span(I::pos(cv, st), I::pos(cv, en))
 }
 
 /// The `map_with` closure body: `apmw(mw, v, e.span(), e.slice(), e.state().h, e.ctx())`.
-fn mw_apply<'a, I, E>(inp: &I, mw: Mw, v: Val, e: &mut MapExtra<'a, '_, I, Ex<E>>) -> Val
+fn mw_apply<'a, I, E>(cv: &I::Conv, mw: Mw, v: Val, e: &mut MapExtra<'a, '_, I, Ex<E>>) -> Val
 where
     I: HInput<'a>,
     E: HErr<'a, I>,
 {
-    let sp = e.span();
-    let sp = (inp.pos(sp.start), inp.pos(sp.end));
+    let (st, en) = e.span().raw();
+    let sp = (I::pos(cv, st), I::pos(cv, en));
     let sl = if mw == Mw::Slice {
-        inp.extra_slice(e).expect("MWSlice is only built for kinds with HAS_SLICE")
+        I::extra_slice(cv, e).expect("MWSlice is only built for kinds with HAS_SLICE")
     } else {
         (Pos::Ix(0), Pos::Ix(0))
     };
@@ -83,7 +98,7 @@ where
 }
 
 /// The `foldl_with` / `foldr_with` closure body.
-fn fold_with<'a, I, E>(inp: &I, k: usize, x: Val, y: Val, e: &mut MapExtra<'a, '_, I, Ex<E>>) -> Val
+fn fold_with<'a, I, E>(cv: &I::Conv, k: usize, x: Val, y: Val, e: &mut MapExtra<'a, '_, I, Ex<E>>) -> Val
 where
     I: HInput<'a>,
     E: HErr<'a, I>,
@@ -92,8 +107,133 @@ where
     let h = e.state().h;
     Val::tag(
         k,
-        Val::pair(Val::pair(x, y), Val::pair(span_val(inp, sp), Val::Nat(h as usize))),
+        Val::pair(Val::pair(x, y), Val::pair(span_val::<I>(cv, sp), Val::Nat(h as usize))),
     )
+}
+
+// ---------- primitives whose chumsky bounds go beyond `Input` (called from the `HInput` impls) ----------
+
+fn string_of(ts: &[u32]) -> String {
+    ts.iter().map(|&n| char::from_u32(n).expect("token validated by ast::parse_case")).collect()
+}
+
+pub fn just_string<'a, I, E>(ts: &[u32]) -> P<'a, I, E>
+where
+    I: HInput<'a, Token = char>,
+    E: HErr<'a, I>,
+{
+    match ts {
+        [c] => bx(just::<char, I, Ex<E>>(char::seq(&[*c])[0]).map(|c: char| Val::toks([c]))),
+        _ => bx(just::<String, I, Ex<E>>(string_of(ts)).map(|s: String| Val::toks(s.chars()))),
+    }
+}
+
+pub fn just_vec<'a, I, E>(ts: &[u32]) -> P<'a, I, E>
+where
+    I: HInput<'a>,
+    E: HErr<'a, I>,
+{
+    match ts {
+        [c] => bx(just::<I::Token, I, Ex<E>>(I::Token::seq(&[*c])[0]).map(|c: I::Token| Val::toks([c]))),
+        _ => bx(just::<Vec<I::Token>, I, Ex<E>>(I::Token::seq(ts)).map(|v: Vec<I::Token>| Val::toks(v))),
+    }
+}
+
+// the sequence type must be the same for the built-in and the configured sequence
+pub fn just_cfg_string<'a, I, E>(ts: &[u32]) -> P<'a, I, E>
+where
+    I: HInput<'a, Token = char>,
+    E: HErr<'a, I>,
+{
+    bx(just::<String, I, Ex<E>>(string_of(ts))
+        .configure(|cfg, ctx: &Val| cfg.seq(char::ctx_seq(ctx).into_iter().collect::<String>()))
+        .map(|s: String| Val::toks(s.chars())))
+}
+
+pub fn just_cfg_vec<'a, I, E>(ts: &[u32]) -> P<'a, I, E>
+where
+    I: HInput<'a>,
+    E: HErr<'a, I>,
+{
+    bx(just::<Vec<I::Token>, I, Ex<E>>(I::Token::seq(ts))
+        .configure(|cfg, ctx: &Val| cfg.seq(I::Token::ctx_seq(ctx)))
+        .map(|v: Vec<I::Token>| Val::toks(v)))
+}
+
+pub fn v_any<'a, I, E>() -> P<'a, I, E>
+where
+    I: HInput<'a> + ValueInput<'a>,
+    E: HErr<'a, I>,
+{
+    bx(any::<I, Ex<E>>().map(Val::tok))
+}
+
+pub fn v_one_of_string<'a, I, E>(ts: &[u32]) -> P<'a, I, E>
+where
+    I: HInput<'a, Token = char> + ValueInput<'a>,
+    E: HErr<'a, I>,
+{
+    bx(one_of::<String, I, Ex<E>>(string_of(ts)).map(Val::tok))
+}
+
+pub fn v_none_of_string<'a, I, E>(ts: &[u32]) -> P<'a, I, E>
+where
+    I: HInput<'a, Token = char> + ValueInput<'a>,
+    E: HErr<'a, I>,
+{
+    bx(none_of::<String, I, Ex<E>>(string_of(ts)).map(Val::tok))
+}
+
+pub fn v_one_of_vec<'a, I, E>(ts: &[u32]) -> P<'a, I, E>
+where
+    I: HInput<'a> + ValueInput<'a>,
+    E: HErr<'a, I>,
+{
+    bx(one_of::<Vec<I::Token>, I, Ex<E>>(I::Token::seq(ts)).map(Val::tok))
+}
+
+pub fn v_none_of_vec<'a, I, E>(ts: &[u32]) -> P<'a, I, E>
+where
+    I: HInput<'a> + ValueInput<'a>,
+    E: HErr<'a, I>,
+{
+    bx(none_of::<Vec<I::Token>, I, Ex<E>>(I::Token::seq(ts)).map(Val::tok))
+}
+
+pub fn v_select<'a, I, E>(p: Pred, f: Fn1) -> P<'a, I, E>
+where
+    I: HInput<'a> + ValueInput<'a>,
+    E: HErr<'a, I>,
+{
+    bx(select(move |t: I::Token, _e: &mut MapExtra<'a, '_, I, Ex<E>>| {
+        let v = Val::tok(t);
+        if holds(&p, &v) {
+            Some(ap1(&f, v))
+        } else {
+            None
+        }
+    }))
+}
+
+pub fn v_not<'a, I, E>(a: P<'a, I, E>) -> PU<'a, I, E>
+where
+    I: HInput<'a> + ValueInput<'a>,
+    E: HErr<'a, I>,
+{
+    bxu(a.not())
+}
+
+/// `p.to_slice()` with the slice located by `range` and mapped to `Val::Slice`.
+pub fn to_slice_with<'a, I, E, F>(p: P<'a, I, E>, range: F) -> P<'a, I, E>
+where
+    I: HInput<'a> + SliceInput<'a>,
+    E: HErr<'a, I>,
+    F: Fn(I::Slice) -> (Pos, Pos) + 'a,
+{
+    bx(p.to_slice().map(move |part: I::Slice| {
+        let (s, e) = range(part);
+        Val::Slice(s, e)
+    }))
 }
 
 macro_rules! tuple_of {
@@ -101,12 +241,8 @@ macro_rules! tuple_of {
 }
 
 impl<'a, I: HInput<'a>, E: HErr<'a, I>> Builder<'a, I, E> {
-    pub fn new(input: I) -> Self {
-        Builder { input, _p: PhantomData }
-    }
-
-    fn seq_string(ts: &[char]) -> String {
-        ts.iter().collect()
+    pub fn new(cv: I::Conv) -> Self {
+        Builder { cv, env: RefCell::new(Vec::new()), _p: PhantomData }
     }
 
     /// Build the parser for a grammar.
@@ -115,46 +251,20 @@ impl<'a, I: HInput<'a>, E: HErr<'a, I>> Builder<'a, I, E> {
             // ---------- primitives ----------
             G::End => bx(end::<I, Ex<E>>().map(|()| Val::Unit)),
             G::Empty => bx(empty::<I, Ex<E>>().map(|()| Val::Unit)),
-            G::Any => bx(any::<I, Ex<E>>().map(Val::Tok)),
-            G::Just(ts) => match ts.as_slice() {
-                [c] => bx(just::<char, I, Ex<E>>(*c).map(|c: char| Val::toks([c]))),
-                _ if I::SEQ_IS_STRING => bx(just::<String, I, Ex<E>>(Self::seq_string(ts))
-                    .map(|s: String| Val::toks(s.chars()))),
-                _ => bx(just::<Vec<char>, I, Ex<E>>(ts.clone()).map(|v: Vec<char>| Val::toks(v))),
-            },
-            G::OneOf(ts) => {
-                if I::SEQ_IS_STRING {
-                    bx(one_of::<String, I, Ex<E>>(Self::seq_string(ts)).map(Val::Tok))
-                } else {
-                    bx(one_of::<Vec<char>, I, Ex<E>>(ts.clone()).map(Val::Tok))
-                }
-            }
-            G::NoneOf(ts) => {
-                if I::SEQ_IS_STRING {
-                    bx(none_of::<String, I, Ex<E>>(Self::seq_string(ts)).map(Val::Tok))
-                } else {
-                    bx(none_of::<Vec<char>, I, Ex<E>>(ts.clone()).map(Val::Tok))
-                }
-            }
-            G::Select(p, f) => {
-                let (p, f) = (p.clone(), f.clone());
-                bx(select(move |t: char, _e: &mut MapExtra<'a, '_, I, Ex<E>>| {
-                    let v = Val::Tok(t);
-                    if holds(&p, &v) {
-                        Some(ap1(&f, v))
-                    } else {
-                        None
-                    }
-                }))
-            }
+            G::Any => I::any()?,
+            G::Just(ts) => I::just(ts),
+            G::OneOf(ts) => I::one_of(ts)?,
+            G::NoneOf(ts) => I::none_of(ts)?,
+            G::Select(p, f) => I::select(p.clone(), f.clone())?,
             G::Custom(ts, k) => {
-                let (ts, k) = (ts.clone(), *k);
-                // no rewind on failure: the cursor stays where the mismatch was read
+                let (ts, k) = (I::Token::seq(ts), *k);
+                // no rewind on failure: the cursor stays where the mismatch was read.
+                // `next_maybe` instead of `next`: the same token stream, but available on every `Input`
                 bx(custom(move |inp: &mut InputRef<'a, '_, I, Ex<E>>| {
                     let b = inp.cursor();
                     for &t in &ts {
-                        match inp.next() {
-                            Some(u) if u == t => {}
+                        match inp.next_maybe() {
+                            Some(u) if *u == t => {}
                             _ => return Err(E::custom(k, inp.span_since(&b))),
                         }
                     }
@@ -170,21 +280,18 @@ impl<'a, I: HInput<'a>, E: HErr<'a, I>> Builder<'a, I, E> {
             G::MapWith(mw, a) => {
                 let a = self.g(a)?;
                 let mw = self.check_mw(*mw)?;
-                let inp = self.input.clone();
-                bx(a.map_with(move |v: Val, e: &mut MapExtra<'a, '_, I, Ex<E>>| mw_apply(&inp, mw, v, e)))
+                let cv = self.cv.clone();
+                bx(a.map_with(move |v: Val, e: &mut MapExtra<'a, '_, I, Ex<E>>| mw_apply(&cv, mw, v, e)))
             }
             G::To(n, a) => bx(self.g(a)?.to(Val::Nat(*n))),
             G::Ignored(a) => bx(self.g(a)?.ignored().map(|()| Val::Unit)),
             G::ToSpan(a) => {
-                let inp = self.input.clone();
-                bx(self.g(a)?.to_span().map(move |s: SimpleSpan<usize>| span_val(&inp, s)))
+                let cv = self.cv.clone();
+                bx(self.g(a)?.to_span().map(move |s: I::Span| span_val::<I>(&cv, s)))
             }
             G::ToSlice(a) => {
                 let a = self.g(a)?;
-                match self.input.to_slice(a) {
-                    Some(p) => p,
-                    None => return unsupported("ToSlice: input kind has no SliceInput"),
-                }
+                I::to_slice(&self.cv, a)?
             }
             G::Filter(p, a) => {
                 let p = p.clone();
@@ -192,7 +299,7 @@ impl<'a, I: HInput<'a>, E: HErr<'a, I>> Builder<'a, I, E> {
             }
             G::TryMap(p, f, k, a) => {
                 let (p, f, k) = (p.clone(), f.clone(), *k);
-                bx(self.g(a)?.try_map(move |v: Val, span: SimpleSpan<usize>| {
+                bx(self.g(a)?.try_map(move |v: Val, span: I::Span| {
                     if holds(&p, &v) {
                         Ok(ap1(&f, v))
                     } else {
@@ -259,7 +366,7 @@ impl<'a, I: HInput<'a>, E: HErr<'a, I>> Builder<'a, I, E> {
             }
             G::ChoiceVec(gs) => bx(choice(self.gs(gs)?)),
             G::OrNot(a) => bx(self.g(a)?.or_not().map(Val::opt)),
-            G::Not(a) => bx(self.g(a)?.not().map(|()| Val::Unit)),
+            G::Not(a) => bx(I::not(self.g(a)?)?.map(|()| Val::Unit)),
             G::AndIs(a, b) => bx(self.g(a)?.and_is(self.g(b)?)),
             G::Rewind(a) => bx(self.g(a)?.rewind()),
 
@@ -311,17 +418,103 @@ impl<'a, I: HInput<'a>, E: HErr<'a, I>> Builder<'a, I, E> {
                 let f = f.clone();
                 bx(map_ctx::<_, Val, I, Ex<E>, Ex<E>, _>(move |c: &Val| ap1(&f, c.clone()), self.g(a)?))
             }
-            G::JustCfg(ts) => {
-                // the sequence type must be the same for the built-in and the configured sequence
-                if I::SEQ_IS_STRING {
-                    bx(just::<String, I, Ex<E>>(Self::seq_string(ts))
-                        .configure(|cfg, ctx: &Val| cfg.seq(val_toks(ctx).into_iter().collect::<String>()))
-                        .map(|s: String| Val::toks(s.chars())))
-                } else {
-                    bx(just::<Vec<char>, I, Ex<E>>(ts.clone())
-                        .configure(|cfg, ctx: &Val| cfg.seq(val_toks(ctx)))
-                        .map(|v: Vec<char>| Val::toks(v)))
+            G::JustCfg(ts) => I::just_cfg(ts),
+
+            // ---------- version 2: memoization, recursion, pratt ----------
+            G::Memo(_id, a) => bx(self.g(a)?.memoized()),
+            G::Rec(a) => {
+                let mut failed = None;
+                let p = recursive(|h| {
+                    self.env.borrow_mut().push(Handle::Direct(h));
+                    let body = self.g(a);
+                    self.env.borrow_mut().pop();
+                    match body {
+                        Ok(p) => p,
+                        Err(u) => {
+                            // `recursive` wants a parser; it is thrown away below
+                            failed = Some(u);
+                            bx(empty::<I, Ex<E>>().map(|()| Val::Unit))
+                        }
+                    }
+                });
+                if let Some(u) = failed {
+                    return Err(u);
                 }
+                bx(p)
+            }
+            G::RecDecl(a) => {
+                let mut p = Recursive::declare();
+                self.env.borrow_mut().push(Handle::Indirect(p.clone()));
+                let body = self.g(a);
+                self.env.borrow_mut().pop();
+                p.define(body?);
+                bx(p)
+            }
+            G::Var(k) => {
+                let env = self.env.borrow();
+                match env.len().checked_sub(k + 1).map(|i| &env[i]) {
+                    Some(Handle::Direct(h)) => bx(h.clone()),
+                    Some(Handle::Indirect(h)) => bx(h.clone()),
+                    None => return unsupported("Var: no enclosing Rec/RecDecl with that index"),
+                }
+            }
+            G::Boxed(a) => bx(self.g(a)?.boxed()),
+            G::Pratt(form, atom, ops) => {
+                let atom = self.g(atom)?;
+                let ops: Vec<POpBox<'a, I, E>> = ops.iter().map(|o| self.pop(o)).collect::<Res<_>>()?;
+                match form {
+                    PForm::Vec => bx(atom.pratt(ops)),
+                    PForm::Tuple => match ops.len() {
+                        1 => bx(atom.pratt(tuple_of!(ops; 0))),
+                        2 => bx(atom.pratt(tuple_of!(ops; 0 1))),
+                        3 => bx(atom.pratt(tuple_of!(ops; 0 1 2))),
+                        4 => bx(atom.pratt(tuple_of!(ops; 0 1 2 3))),
+                        5 => bx(atom.pratt(tuple_of!(ops; 0 1 2 3 4))),
+                        6 => bx(atom.pratt(tuple_of!(ops; 0 1 2 3 4 5))),
+                        _ => return unsupported("Pratt: the tuple form is built for 1..=6 operators"),
+                    },
+                }
+            }
+        })
+    }
+
+    /// A boxed pratt operator.
+    fn pop(&self, op: &POp) -> Res<POpBox<'a, I, E>> {
+        let cv = self.cv.clone();
+        Ok(match op {
+            POp::Infix(r, bp, g, k) => {
+                let k = *k;
+                let assoc = if *r { pratt::right(*bp) } else { pratt::left(*bp) };
+                pratt::infix(
+                    assoc,
+                    self.g(g)?,
+                    move |l: Val, op: Val, rhs: Val, e: &mut MapExtra<'a, '_, I, Ex<E>>| {
+                        Val::tag(k, Val::List(vec![l, op, rhs, span_val::<I>(&cv, e.span())]))
+                    },
+                )
+                .boxed()
+            }
+            POp::Prefix(bp, g, k) => {
+                let k = *k;
+                pratt::prefix(
+                    *bp,
+                    self.g(g)?,
+                    move |op: Val, rhs: Val, e: &mut MapExtra<'a, '_, I, Ex<E>>| {
+                        Val::tag(k, Val::List(vec![op, rhs, span_val::<I>(&cv, e.span())]))
+                    },
+                )
+                .boxed()
+            }
+            POp::Postfix(bp, g, k) => {
+                let k = *k;
+                pratt::postfix(
+                    *bp,
+                    self.g(g)?,
+                    move |l: Val, op: Val, e: &mut MapExtra<'a, '_, I, Ex<E>>| {
+                        Val::tag(k, Val::List(vec![l, op, span_val::<I>(&cv, e.span())]))
+                    },
+                )
+                .boxed()
             }
         })
     }
@@ -345,7 +538,7 @@ impl<'a, I: HInput<'a>, E: HErr<'a, I>> Builder<'a, I, E> {
             G::End => bxu(end::<I, Ex<E>>()),
             G::Empty => bxu(empty::<I, Ex<E>>()),
             G::Ignored(a) => bxu(self.g(a)?.ignored()),
-            G::Not(a) => bxu(self.g(a)?.not()),
+            G::Not(a) => I::not(self.g(a)?)?,
             G::RepUnit(it) => self.rep_unit(it)?,
             _ => {
                 return unsupported(
@@ -528,10 +721,10 @@ impl<'a, I: HInput<'a>, E: HErr<'a, I>> Builder<'a, I, E> {
                 self.both1(Parser::map(it, move |x: T| ap1(&f, x.into_val())), rest, fin)
             }
             Some((Ad::MapWith(mw), rest)) => {
-                let (mw, inp) = (*mw, self.input.clone());
+                let (mw, cv) = (*mw, self.cv.clone());
                 self.both1(
                     Parser::map_with(it, move |x: T, e: &mut MapExtra<'a, '_, I, Ex<E>>| {
-                        mw_apply(&inp, mw, x.into_val(), e)
+                        mw_apply(&cv, mw, x.into_val(), e)
                     }),
                     rest,
                     fin,
@@ -554,10 +747,10 @@ impl<'a, I: HInput<'a>, E: HErr<'a, I>> Builder<'a, I, E> {
                 self.iter0(Parser::map(it, move |x: T| ap1(&f, x.into_val())), rest, fin)
             }
             Some((Ad::MapWith(mw), rest)) => {
-                let (mw, inp) = (*mw, self.input.clone());
+                let (mw, cv) = (*mw, self.cv.clone());
                 self.iter0(
                     Parser::map_with(it, move |x: T, e: &mut MapExtra<'a, '_, I, Ex<E>>| {
-                        mw_apply(&inp, mw, x.into_val(), e)
+                        mw_apply(&cv, mw, x.into_val(), e)
                     }),
                     rest,
                     fin,
@@ -589,15 +782,15 @@ impl<'a, I: HInput<'a>, E: HErr<'a, I>> Builder<'a, I, E> {
                 bx(it.foldr(b, move |x: T, acc: Val| Val::tag(k, Val::pair(x.into_val(), acc))))
             }
             Fin::FoldlWith(a, k) => {
-                let inp = self.input.clone();
+                let cv = self.cv.clone();
                 bx(a.foldl_with(it, move |acc: Val, x: T, e: &mut MapExtra<'a, '_, I, Ex<E>>| {
-                    fold_with(&inp, k, acc, x.into_val(), e)
+                    fold_with(&cv, k, acc, x.into_val(), e)
                 }))
             }
             Fin::FoldrWith(b, k) => {
-                let inp = self.input.clone();
+                let cv = self.cv.clone();
                 bx(it.foldr_with(b, move |x: T, acc: Val, e: &mut MapExtra<'a, '_, I, Ex<E>>| {
-                    fold_with(&inp, k, x.into_val(), acc, e)
+                    fold_with(&cv, k, x.into_val(), acc, e)
                 }))
             }
         })
